@@ -55,10 +55,14 @@ def filter_empty(args: dict, meta: dict, info: dict):
             del args[key]
             continue
 
+        # the command line passes list options as lists: [""] is a blank value
+        if isinstance(val, list) and not [i for i in val if str(i).strip()]:
+            val = ""
+
         if val == "":
             if key in meta:
                 del meta[key]
-            elif key in info:
+            if key in info:
                 del info[key]
             del args[key]
             logger.debug("removeing empty fields %s", val)
